@@ -9,6 +9,7 @@ package transport
 
 import (
 	"bytes"
+	"context"
 	"fmt"
 	"reflect"
 	"sort"
@@ -84,7 +85,7 @@ func vfDir(fs vfs.IFS) server.SnapshotDirFunc {
 
 // vfBuildStream produces the source files on the sender's file system and
 // splits them with the real sender code.
-func vfBuildStream(t *rapid.T, sfs vfs.IFS, s *vfStream, payload snapio.Payload, compressed bool, writeCuts []int, extSizes []int) {
+func vfBuildStream(t vfhelp.TB, sfs vfs.IFS, s *vfStream, payload snapio.Payload, compressed bool, writeCuts []int, extSizes []int) {
 	ct := pb.NoCompression
 	if compressed {
 		ct = pb.Snappy
@@ -120,22 +121,26 @@ func vfBuildStream(t *rapid.T, sfs vfs.IFS, s *vfStream, payload snapio.Payload,
 				s.exts = append(s.exts, e)
 			}
 		}
+		// as Transport.doSendSnapshot does: split, hand the chunks to a job, let the
+		// job load the data of each chunk and send it over the connection
 		chunks, err := splitSnapshotMessage(m, sfs)
 		if err != nil {
 			t.Fatalf("split %v", err)
 		}
-		buf := make([]byte, snapshotChunkSize)
-		for i := range chunks {
-			// as job.sendChunks does
-			chunks[i].DeploymentId = vfDid
-			if !chunks[i].Witness {
-				data, err := loadChunkData(chunks[i], buf, sfs)
-				if err != nil {
-					t.Fatalf("loadChunkData %v", err)
-				}
-				chunks[i].Data = append([]byte{}, data...)
-			}
+		conn := &vfConn{}
+		j := newJob(context.Background(), s.shard, s.to, vfDid, false, len(chunks), &vfTrans{conn: conn}, make(chan struct{}), sfs)
+		if err := j.connect("receiver"); err != nil {
+			t.Fatalf("connect %v", err)
 		}
+		j.addSnapshot(chunks)
+		if err := j.process(); err != nil {
+			t.Fatalf("job.process %v", err)
+		}
+		j.close()
+		if len(conn.chunks) != len(chunks) || !conn.closed {
+			t.Fatalf("job sent %d of %d chunks (closed %v)", len(conn.chunks), len(chunks), conn.closed)
+		}
+		chunks = conn.chunks
 		s.chunks = chunks
 		if s.mode == "witness" {
 			s.mainBytes = append([]byte{}, chunks[0].Data...)
@@ -147,16 +152,30 @@ func vfBuildStream(t *rapid.T, sfs vfs.IFS, s *vfStream, payload snapio.Payload,
 			s.mainName = server.GetSnapshotFilename(s.index)
 		}
 	case "stream":
-		sink := &snapio.RecSink{Shard: s.shard, To: s.to}
+		// as Transport.GetStreamSink + snapshotter.Stream do: a streaming job fed
+		// through its Sink by rsm.ChunkWriter, sending over the connection
+		conn := &vfConn{}
+		j := newJob(context.Background(), s.shard, s.to, vfDid, true, 0, &vfTrans{conn: conn}, make(chan struct{}), sfs)
+		if err := j.connect("receiver"); err != nil {
+			t.Fatalf("connect %v", err)
+		}
+		done := make(chan error, 1)
+		go func() { done <- j.process() }()
+		sink := &vfSink{Sink: &Sink{j: j}}
 		meta := rsm.SSMeta{From: s.from, Index: s.index, Term: s.term, OnDiskIndex: s.onDisk, Membership: s.membership, CompressionType: ct}
-		if err := snapio.StreamChunks(sink, meta, snapio.Segments(pbytes, writeCuts)); err != nil {
-			t.Fatalf("stream %v", err)
+		serr := snapio.StreamTo(sink, meta, snapio.Segments(pbytes, writeCuts))
+		perr := <-done
+		j.close()
+		if serr != nil || perr != nil {
+			t.Fatalf("streaming failed: %v %v", serr, perr)
 		}
-		for i := range sink.Chunks {
-			sink.Chunks[i].DeploymentId = vfDid // as job.streamSnapshot does
-			s.mainBytes = append(s.mainBytes, sink.Chunks[i].Data...)
+		for i := range conn.chunks {
+			s.mainBytes = append(s.mainBytes, conn.chunks[i].Data...)
 		}
-		s.chunks = sink.Chunks
+		if n := len(conn.chunks); n < 3 || conn.chunks[n-1].ChunkCount != pb.LastChunkCount {
+			t.Fatalf("streaming job sent %d chunks", n)
+		}
+		s.chunks = conn.chunks
 		s.mainName = server.GetSnapshotFilename(s.index)
 	}
 	s.firstSize = s.chunks[0].FileSize
@@ -168,6 +187,37 @@ func vfBuildStream(t *rapid.T, sfs vfs.IFS, s *vfStream, payload snapio.Payload,
 	s.recLen = snapio.ParseLayout(s.mainBytes, true).RecLen
 	s.bigMain = len(s.mainBytes) > 2*(snapio.BlockSize+snapio.CRCSize)+snapio.HeaderSize
 }
+
+// vfConn is the recording raftio.ISnapshotConnection of the sender side.
+type vfConn struct {
+	chunks []pb.Chunk
+	closed bool
+}
+
+func (c *vfConn) Close() { c.closed = true }
+
+func (c *vfConn) SendChunk(chunk pb.Chunk) error {
+	// a real connection serialises the chunk before the next one is prepared
+	// (job.sendChunks reuses one data buffer)
+	chunk.Data = append([]byte{}, chunk.Data...)
+	c.chunks = append(c.chunks, chunk)
+	return nil
+}
+
+type vfTrans struct{ conn *vfConn }
+
+func (t *vfTrans) Name() string { return "vf" }
+func (t *vfTrans) Start() error { return nil }
+func (t *vfTrans) Close() error { return nil }
+func (t *vfTrans) GetConnection(ctx context.Context, target string) (raftio.IConnection, error) {
+	return nil, fmt.Errorf("not used")
+}
+func (t *vfTrans) GetSnapshotConnection(ctx context.Context, target string) (raftio.ISnapshotConnection, error) {
+	return t.conn, nil
+}
+
+// vfSink wraps the real Sink (pb.IChunkSink of a streaming job).
+type vfSink struct{ *Sink }
 
 // ---------------------------------------------------------------------------
 // the reference receiver (written from the property statement)
@@ -517,10 +567,11 @@ func vfCorrupt(t *rapid.T, lbl string, s *vfStream, id int, c pb.Chunk) (pb.Chun
 			// first chunk of the main file: header length, CRC slot or payload
 			switch rapid.IntRange(0, 2).Draw(t, lbl+"cregion") {
 			case 0:
-				lo, hi = 0, 7
-				if s.mode != "stream" {
-					// the first length byte; flips of higher bytes are refused as well
-					hi = 0
+				// higher bytes of the length: always refused; the lowest byte may run
+				// into the all-zero CRC escape and panic in the header unmarshaller
+				lo, hi = 1, 7
+				if rapid.IntRange(0, 3).Draw(t, lbl+"clow") == 0 {
+					lo, hi = 0, 0
 				}
 				kind = "flip-header-len"
 			case 1:
@@ -544,7 +595,7 @@ func vfCorrupt(t *rapid.T, lbl string, s *vfStream, id int, c pb.Chunk) (pb.Chun
 		data[off] ^= 1 << uint(rapid.IntRange(0, 7).Draw(t, lbl+"cbit"))
 	case "truncate":
 		k := rapid.IntRange(1, vfMin(len(data), 40)).Draw(t, lbl+"ck")
-		if !c.HasFileInfo && id == 0 && rapid.IntRange(0, 3).Draw(t, lbl+"cshort") == 0 {
+		if !c.HasFileInfo && id == 0 && rapid.IntRange(0, 7).Draw(t, lbl+"cshort") == 0 {
 			k = len(data) - rapid.IntRange(0, snapio.HeaderSize-1).Draw(t, lbl+"ckeep")
 			kind = "truncate-below-header"
 		}
@@ -555,6 +606,14 @@ func vfCorrupt(t *rapid.T, lbl string, s *vfStream, id int, c pb.Chunk) (pb.Chun
 	case "extend":
 		data = append(data, bytes.Repeat([]byte{0x5A}, rapid.IntRange(1, 20).Draw(t, lbl+"ck"))...)
 	case "empty":
+		if !c.HasFileInfo && id == 0 && rapid.IntRange(0, 3).Draw(t, lbl+"cempty") != 0 {
+			data = data[:len(data)-1]
+			kind = "truncate"
+			if len(data) < snapio.HeaderSize {
+				kind = "truncate-below-header"
+			}
+			break
+		}
 		data = nil
 		if !c.HasFileInfo && id == 0 {
 			kind = "truncate-below-header"
@@ -636,6 +695,8 @@ func (r *vfRun) deliver(d vfDelivery) {
 		case v.zombie && d.corrupt == "":
 			r.label("panic:s4")
 			r.known(vfSigS4, "in-order chunk %d of the live stream s%d panics the receiver after a refused corrupt first chunk for the same key: %v", d.id, d.s.n, pv)
+		case d.corrupt != "" && v.zombie:
+			r.label("panic:s4-shape-on-corrupt-chunk")
 		case d.corrupt != "":
 			// fail-stop on a corrupt chunk: recorded, not a violation by itself
 			r.label("panic:on-corrupt-chunk/" + d.corrupt)
@@ -741,7 +802,7 @@ func (r *vfRun) op(i int) {
 	t := r.t
 	lbl := fmt.Sprintf("op%d-", i)
 	kind := rapid.SampledFrom([]string{"deliver", "deliver", "deliver", "deliver", "deliver", "deliver", "finish", "finish",
-		"drop", "swap", "dup", "corrupt", "corrupt", "corrupt-first", "restart", "wrongdid", "wrongbin", "foreign", "markremoved",
+		"drop", "swap", "dup", "corrupt", "corrupt", "corrupt-then-finish", "corrupt-then-finish", "corrupt-first", "restart", "wrongdid", "wrongbin", "foreign", "markremoved",
 		"tick", "tick", "rename"}).Draw(t, lbl+"kind")
 	s := r.c.streams[rapid.IntRange(0, len(r.c.streams)-1).Draw(t, lbl+"s")]
 	cur := r.cursor[s.n]
@@ -804,6 +865,28 @@ func (r *vfRun) op(i int) {
 			r.deliver(vfDelivery{s: s, id: cur, chunk: c, corrupt: how, what: "corrupt(" + how + "," + tag + ")"})
 			r.cursor[s.n]++
 			note("corrupt-" + tag)
+		}
+	case "corrupt-then-finish":
+		// one chunk damaged in transit, everything else delivered
+		if left > 0 {
+			j := cur + rapid.IntRange(0, vfMin(left-1, 3)).Draw(t, lbl+"j")
+			for k := cur; k < j; k++ {
+				r.deliver(r.pristine(s, k))
+			}
+			c, how := vfCorrupt(t, lbl, s, j, s.chunks[j])
+			tag := "main"
+			if c.HasFileInfo {
+				tag = "ext"
+			}
+			r.deliver(vfDelivery{s: s, id: j, chunk: c, corrupt: how, what: "corrupt(" + how + "," + tag + ")"})
+			for k := j + 1; k < len(s.chunks); k++ {
+				r.deliver(r.pristine(s, k))
+			}
+			r.cursor[s.n] = len(s.chunks)
+			r.label("op:corrupt-" + tag + "-then-finish")
+			if j > 0 || len(s.chunks) > 1 {
+				r.hitLater = r.hitLater || j > 0
+			}
 		}
 	case "corrupt-first":
 		// a corrupt first chunk for the key of s (a restart whose first chunk is damaged)
